@@ -499,7 +499,58 @@ def gen_group(rng, q, known, allow_faults=True, pool_skip=0):
     return {"q": q, "best": best, "units": units}
 
 
+def gen_layered_case(rng):
+    """The layering shape the random walk rarely reaches: an expand_si unit with SI tables, a layer that gives
+    aliases to one of its SI forms, and a separate layer that edits the base unit - usually after it, sometimes
+    before it or in the same block; now and then a further layer touching the form or the base again."""
+    rng.fault = 0.0
+    q = rng.choice(["M", "V", "L"])
+    f0 = {"ds": rng.choice([None, "m", "i"]), "si": {"p": FULL_P, "s": FULL_S, "prec": "b", "explicit_prec": rng.random() < 0.3},
+          "fr": None, "ex": None, "q": []}
+    for qq in PQS:
+        pool = POOL[qq][:rng.choice([1, 2, 3])]
+        ents = [(list(u[0]), list(u[1]), [], u[2], u[3], u[4]) for u in pool]
+        f0["q"].append({"q": qq, "best": ("u", [pool[0][1][0]]), "units": ("u", ents)})
+    base = POOL[q][0]
+    pre, spre = rng.choice(list(zip(FULL_P, FULL_S)))
+    form = rng.choice([pre[0] + rng.choice(base[0]), spre[0] + rng.choice(base[1])])
+    word = lambda: rng.choice(FRESH) + rng.choice(["", "s", "2", "3", "4"])
+    prec = lambda: rng.choice(["b", "b", "a", "o"])
+
+    def on_form():
+        return (None, None, None, None, [word() for _ in range(rng.choice([1, 1, 2]))])
+
+    def on_base():
+        r = rng.random()
+        names = [word() for _ in range(rng.choice([1, 2]))] if r < 0.6 else None
+        symbols = [word()] if 0.5 < r < 0.8 else None
+        aliases = [word()] if r >= 0.75 or rng.random() < 0.2 else None
+        ratio = rng.choice(RATIOS) if rng.random() < 0.2 else None
+        return (ratio, None, names, symbols, aliases)
+
+    def layer(units):
+        return {"ds": None, "si": None, "fr": None, "q": [],
+                "ex": {"prec": prec(), "units": units, "explicit_prec": rng.random() < 0.3}}
+    basekey = rng.choice(list(base[0]) + list(base[1]))
+    r = rng.random()
+    if r < 0.6:
+        files = [f0, layer({form: on_form()}), layer({basekey: on_base()})]
+    elif r < 0.8:
+        files = [f0, layer({basekey: on_base()}), layer({form: on_form()})]
+    else:
+        files = [f0, layer({form: on_form(), basekey: on_base()})]
+    if rng.random() < 0.25 and len(files) < 3:
+        files.append(layer({rng.choice([form, basekey]): rng.choice([on_form, on_base])()}))
+    if rng.random() < 0.3:
+        # another unit of another quantity extended along the way
+        other = rng.choice([x for x in PQS if x != q])
+        files[-1]["ex"]["units"][POOL[other][0][1][0]] = (None, None, None, None, [word()])
+    return files
+
+
 def gen_case(rng):
+    if rng.random() < 0.1:
+        return gen_layered_case(rng)
     known = {}
     files = []
     rng.fault = rng.choice([0.0, 0.0, 0.3, 1.0, 1.0])
